@@ -11,6 +11,11 @@ TEXT = {
                    "state with pairwise distinct connections - an invariant proved for every reachable state (run_WF). Sequential histories only; the "
                    "concurrent clause and the per-sender order clause are checked by the correspondence run, not proved.",
              note=_std_note, technique=_tech),
+ 'C04': dict(level="The protocol's decision table is written out as Spec.expectedAnswer; C04_core_answer / _action_answer / _asset_answer / _dagaz_answer prove that every "
+                   "request for which the table defines an answer gets exactly that one answer, to the requester (all other deliveries are relays); "
+                   "C04_refused_unchanged proves that a request answered with an error leaves the session exactly as it was (through every module), under the "
+                   "attachment invariant that C04_attach_invariant proves for every reachable state; C04_not_joined proves that a session-less request is never executed.",
+             note=_std_note + " Ping, signed latency and receipts are covered here only for their refusal answers; their protocols belong to C18/C19.", technique=_tech),
  'C05': dict(level="C05_delete_guard / _pose_guard / _asset_guard prove that a non-owner's request changes nothing through the core handler and every module; "
                    "C05_owner_immutable proves that no request ever changes an entity's owner (new entities belong to the requester under a fresh id).",
              note=_std_note, technique=_tech),
@@ -22,12 +27,21 @@ TEXT = {
                    "for every state reachable by any sequential history (C07_registry_invariant via run_WF); C07_join_live / _join_refused / _last_departure / "
                    "_departure_keeps / _fresh_session give the per-step clauses. The schedule-quantified clauses are NOT proved (layer C not built yet).",
              note=_std_note, technique=_tech),
+ 'C10': dict(level="C10_no_collision: for every history, session ids and UUIDs of live sessions are pairwise distinct and, in every session, participant ids, entity ids, "
+                   "type ids, type names and asset instance ids are pairwise distinct and bounded by their counters (run_WF + run_AllInv); C10_counters_monotone / "
+                   "C10_leave_releases_nothing: no request and no departure ever moves a counter backwards or releases an id; ids are issued as counter+1 "
+                   "(C10_join_fresh_pid, C10_session_id_fresh); C10_types_bijective. The concurrent clause is not proved (layer C not built yet).",
+             note=_std_note + " uint32 wrap-around after 2^32-1 allocations is outside the model (ids are unbounded naturals).", technique=_tech),
  'C12': dict(level="Refinement of the component store to a partial map: add/update/delete/list/entity-removal theorems (C12_*) state the exact effect on the set of "
                    "components and the refusal codes, for every session state.",
              note=_std_note, technique=_tech),
  'C13': dict(level="C13_add_notify/_delete_notify/_update_notify give the exact recipients of component notifications as a function of the subscription set; "
                    "C13_subscribe/_unsubscribe/_leave_unsubscribes give the exact evolution of that set.",
              note=_std_note, technique=_tech),
+ 'C16': dict(level="C16_accept_iff (an action is accepted iff named, stamped, for an existing entity and not older than the stored one), C16_older_refused, "
+                   "C16_accepted_replaces, C16_monotone (the stored timestamp never decreases), C16_asset_single (one asset per entity, fresh instance id), "
+                   "C16_*_needs_entity, C16_newcomer, and C16_invariant (uniqueness of (entity,name) and of per-entity assets in every reachable state).",
+             note=_std_note + " Timestamps are compared as (seconds, nanos) pairs, i.e. for protobuf-normalised timestamps; Go's time.Unix normalisation of out-of-range nanos is not modelled.", technique=_tech),
  'C17': dict(level="C17_filter: for every list of flag strings F (all 1024 subsets and any unknown names), every history and every starting state, the run under F "
                    "reaches the same server state as the flag-free run and delivers exactly its deliveries minus the message classes F names (induction over the "
                    "history from the per-step lemma C17_step); C17_unknown_flag: names outside the ten remove nothing. Which sends each flag wraps in the source is "
